@@ -213,12 +213,19 @@ def rule_OD6(rep, prog, q):
     fn = prog.fn("_dispatch_queue_need_override")
     rep.saw(fn)
     mq = calls_named(fn, "_dispatch_queue_max_qos")
-    if len(mq) != 1:
-        rep.unknown(rid, "anchor vanished: _dispatch_queue_need_override does not call _dispatch_queue_max_qos once (%d)" % len(mq))
+    MQM = q.c["DISPATCH_QUEUE_MAX_QOS_MASK"]
+    mqsh = (MQM & -MQM).bit_length() - 1
+    stl = [l for l in fn.all_insts() if l.op == "load" and (prog.fields(l) & (DQ_STATE | {"dq_state_bits"}))]
+    def word(l, m):
+        w = (m << mqsh) | 0x1
+        return (w >> 32) if (l.d.get("ty") == "i32" and "dq_state_bits" in prog.fields(l)) else w
+    if len(mq) != 1 and not stl:
+        rep.unknown(rid, "anchor vanished: _dispatch_queue_need_override neither calls _dispatch_queue_max_qos nor reads dq_state (%d)" % len(mq))
     else:
         for m in (0, 2, 4):
             for qos in (0, 2, 5):
-                env = {mq[0].id: m, ("a", 1): qos}
+                # the recorded max QoS is the helper's result, or (helper folded in) the MAX_QOS field of the dq_state word read here
+                env = {mq[0].id: m, ("a", 1): qos} if len(mq) == 1 else dict([(l.id, word(l, m)) for l in stl] + [(("a", 1), qos)])
                 r, env = concrete_walk(fn, env, lambda i: i.op == "ret")
                 v = ceval(fn, r.ops[0], {k_: v_ for k_, v_ in env.items() if not isinstance(v_, tuple)}) if r is not None and r.ops else None
                 want = (m == 0) or (m < qos)
